@@ -42,6 +42,17 @@ Theorem C13_cancelled_then_written_refuted :
 Proof. vm_compute. repeat split. Qed.
 Print Assumptions C13_cancelled_then_written_refuted.
 
+(* KNOWN FINDING (class write-acknowledged-at-shutdown): a local transaction feeds the
+   subscriptions from a task spawned after its commit; when the graceful shutdown drops the
+   handles before that task has run, the commit is one "after the handle is gone": outside
+   env_run, restored and not sound -- for either cancellation behaviour. *)
+Theorem C13_write_after_handles_dropped_refuted : forall cr,
+  let ops := [LCreate; LInitial; LWrite; LBatch; LTrip; LUnregister; LWrite; LDrainDone] in
+  env_run cr s_init ops = false /\
+  restored_at_start (lrun cr ops s_init) = true /\ restore_is_sound (lrun cr ops s_init) = false.
+Proof. intros [|]; vm_compute; repeat split. Qed.
+Print Assumptions C13_write_after_handles_dropped_refuted.
+
 Example C13_nonvacuous :
   (* clean: writes during shutdown that reached the matcher are in the last batch *)
   let clean := [LCreate; LInitial; LWrite; LBatch; LWrite; LTrip; LUnregister; LDrainDone] in
